@@ -105,6 +105,7 @@ def make(rng, shape, json_layer):
          "maxlevel": rng.choice([None, None, 0, 1, 2, h, h + 1]),
          "attriter": rng.choice(["none", "none", "sorted", "drop_a", "dup_first"]),
          "childiter": rng.choice(["list", "list", "reversed", "first2", "none", "tail"]),
+         "ci_kind": rng.choice(["list", "list", "iter", "gen", "tuple"]),
          "dictcls": rng.choice([None, "ordered"]),
          "defaults": rng.random() < 0.3}
     # start node: the root, or some inner node (a random walk down the shape)
@@ -144,6 +145,7 @@ def make(rng, shape, json_layer):
         c["json"] = jk
         if not custom:
             c["attriter"], c["childiter"], c["dictcls"] = "none", "list", None
+            c["ci_kind"] = "list"
             c["maxlevel"] = jmax
             c["defaults"] = True
         else:
